@@ -105,6 +105,33 @@ def check():
             pass
         except Exception as e:
             return fail(clause='--load --clean without [gridding_opts] section', exception=f'{type(e).__name__}: {e}')
+        # 8. two runs: misfit with --save, then gradient with --load --clean and ANOTHER model == the API on the same survey and that model
+        #    (and with --cache: what is written back is the state of the second run)
+        model2 = emg3d.Model(grid, np.linspace(0.8, 3.0, grid.n_cells).reshape(grid.shape_cells, order='F'))
+        emg3d.save(os.path.join(td, 'model2.h5'), model=model2, verb=0)
+        cfg8 = base + "[data]\nremove_empty = True\n"
+        for store in ('--save', '--cache'):
+            cases += 1
+            try:
+                run(cfg8, ['--misfit', store, 'two.h5'], out='o8a.h5')
+                with open(os.path.join(td, 'run.cfg'), 'w') as f:
+                    f.write(cfg8.replace('model = model.h5', 'model = model2.h5'))
+                main([os.path.join(td, 'run.cfg'), '--gradient', '--load' if store == '--save' else '--cache', 'two.h5', '--clean', '--output', 'o8b.h5', '-q'])
+                res = emg3d.load(os.path.join(td, 'o8b.h5'), verb=0)
+            except SystemExit as e:
+                return fail(clause=f'--misfit {store}, then --gradient --load/--cache --clean with another model', exit=str(e)[:200])
+            except Exception as e:
+                return fail(clause=f'--misfit {store}, then --gradient --load/--cache --clean with another model raised', exception=f'{type(e).__name__}: {e}')
+            sv = survey.select(remove_empty=True)
+            # (the stored simulation was created by a --misfit run, i.e. with the default cubic receiver interpolation; --load keeps its options)
+            sim = emg3d.Simulation(sv, model2, gridding='same', max_workers=1, solver_opts=dict(tol=1e-4, maxit=10), name='x', receiver_interpolation='cubic',
+                                   tqdm_opts=False, verb=-1)
+            mf = float(sim.misfit)
+            g = sim.gradient
+            if abs(float(res['misfit']) - mf) > 1e-6 * abs(mf) or not np.allclose(res['gradient'], g, rtol=1e-6, atol=1e-9 * np.abs(g).max()):
+                return fail(clause=f'second run (--gradient {"--load" if store == "--save" else "--cache"} --clean, another model) writes the misfit and gradient of the API for that model',
+                            first_run=f'--misfit {store}', cli_misfit=float(res['misfit']), api_misfit=mf,
+                            gradient_rel_diff=float(np.abs(np.asarray(res['gradient']) - g).max() / np.abs(g).max()))
     finally:
         sys.argv = argv0
         shutil.rmtree(td, ignore_errors=True)
